@@ -15,7 +15,8 @@ PID = "C10"
 LEVEL = "exploration"
 RULE = ("templates (DFT with/without axis rank 3/4, +length/inverse; GridSample bilinear/bicubic/nearest; GroupNormalization per-group "
         "static / G==C / scale as input / symbolic channel / input without shape; unchanged ops; If+Loop bodies capturing outer values; "
-        "model-local functions incl. ref-attribute and nested; initializers >1000 elements and initializer-inputs; mix) built at every "
+        "model-local functions incl. ref-attribute and nested; initializers >1000 elements and initializer-inputs; adapted operators ONLY inside If/Loop bodies "
+        "under a main graph whose values are named val_0, val_1, ... like exporter output; mix) built at every "
         "source opset s in 18..25 in the form valid at s; conversions (s,t) in [18,25]^2 x entry {ir.Model, ModelProto} x fallback "
         "{default, False, True}: thorough = all, quick = pairwise-covering subset (+ every (template,s) x {same, adapter-crossing, down}) "
         "of ~600. Oracle: declared default-domain opset == t consistently (model, functions, node.version) else model byte-identical; "
